@@ -13,6 +13,8 @@ import numpy as np
 
 logging.disable(logging.CRITICAL)   # the real code logs at INFO during replays
 ROOT = os.path.dirname(os.path.dirname(os.path.abspath(__file__)))
+# development only (mutant evaluation against a scratch worktree): where evidence and replay files are written
+OUT = os.environ.get("VERIF_OUT", ROOT)
 KNOWN = os.path.join(ROOT, "known_findings.json")
 EXIT_OK, EXIT_VIOLATION, EXIT_HARNESS = 0, 1, 3
 
@@ -77,7 +79,7 @@ def _run_job(args):
     modname, job, tier = args
     t0 = time.time()
     import signal
-    budget = int(os.environ.get("VERIF_JOB_S", "420" if tier == "quick" else "3000"))
+    budget = int(os.environ.get("VERIF_JOB_S", "420" if tier == "quick" else "900"))
     try:
         signal.signal(signal.SIGALRM, _alarm)
         signal.alarm(budget)
@@ -135,7 +137,7 @@ def _schedule(modname, jobs, tier, procs):
     """one process per job with a HARD wall limit: z3 does not always honour its own timeout (non-linear root
     isolation can run for many minutes), so a job that overruns is killed and reported inconclusive - never success"""
     ctx = mp.get_context("fork")
-    soft = int(os.environ.get("VERIF_JOB_S", "420" if tier == "quick" else "3000"))
+    soft = int(os.environ.get("VERIF_JOB_S", "420" if tier == "quick" else "900"))
     hard = soft + 120
     pending = list(enumerate(jobs))
     running = {}
@@ -253,7 +255,7 @@ def finish(mod, pid, tier, seed, results, wall):
 
 
 def write_replay(pid, r, cex):
-    d = os.path.join(ROOT, "replays", pid)
+    d = os.path.join(OUT, "replays", pid)
     os.makedirs(d, exist_ok=True)
     body = {"property": pid, "ob": r["ob"], "cfg": r["cfg"], "inputs": cex.get("inputs"),
             "key": cex.get("key"), "detail": cex.get("detail")}
@@ -333,8 +335,8 @@ def write_evidence(mod, pid, tier, seed, results, wall, n_viol, n_known, errors)
         "wall_s": round(wall, 3),
         "violations": int(n_viol),
     }
-    os.makedirs(os.path.join(ROOT, "evidence"), exist_ok=True)
-    with open(os.path.join(ROOT, "evidence", f"{pid}.json"), "w") as f:
+    os.makedirs(os.path.join(OUT, "evidence"), exist_ok=True)
+    with open(os.path.join(OUT, "evidence", f"{pid}.json"), "w") as f:
         json.dump(ev, f, indent=1, default=str)
 
 
